@@ -10,8 +10,12 @@ import (
 	"path/filepath"
 	"reflect"
 	"sort"
+	"sync"
 	"sync/atomic"
 	"time"
+
+	"github.com/facebookincubator/tacquito/cmds/server/loader/fsnotify"
+	"github.com/facebookincubator/tacquito/cmds/server/loader/yaml"
 
 	"github.com/facebookincubator/tacquito/cmds/server/config"
 	"github.com/facebookincubator/tacquito/cmds/server/config/accounters/local"
@@ -115,6 +119,8 @@ func cmdReload(args []string) {
 	defer f.Close()
 	rd := bufio.NewReaderSize(f, 1<<20)
 	n := 0
+	var watched []*RHist
+	defer func() { r.runWatched(watched, tmp) }()
 	for {
 		line, rerr := rd.ReadBytes('\n')
 		if len(line) > 1 {
@@ -123,6 +129,11 @@ func cmdReload(args []string) {
 				panic(fmt.Errorf("bad history: %v", e))
 			}
 			n++
+			if h.Via == "watch" {
+				hh := h
+				watched = append(watched, &hh)
+				continue
+			}
 			rec.Emit(E{"e": "reset", "sc": h.ID})
 			if h.Burst {
 				r.burst(&h)
@@ -310,4 +321,106 @@ func (r *refRun) burst(h *RHist) {
 		ok2, k2, u2 := probeLoader(freshL, a, h.Users)
 		rec.Emit(E{"e": "probe", "i": len(h.Docs), "addr": a, "ok": ok1, "key": string(k1), "users": u1, "fok": ok2, "fkey": string(k2), "fusers": u2})
 	}
+}
+
+// runWatched: histories played through the file system - the configuration file is rewritten in place and the real
+// fsnotify.Watcher (cmds/server/loader/fsnotify, one-second debounce) reloads it into a real Loader built with
+// loader.NewLocalConfig, as cmds/server/main.go wires them. The histories run side by side (each in its own directory);
+// after every rewrite the Loader is probed until it answers like a fresh Loader built from the last good document
+// (bounded wait) - what it answers then is recorded and judged by Trace_Reload like every other probe.
+func (r *refRun) runWatched(hs []*RHist, tmp string) {
+	if len(hs) == 0 {
+		return
+	}
+	var wg sync.WaitGroup
+	evs := make([][]E, len(hs))
+	sem := make(chan struct{}, 16)
+	for k, h := range hs {
+		wg.Add(1)
+		go func(k int, h *RHist) {
+			defer wg.Done()
+			sem <- struct{}{}
+			defer func() { <-sem }()
+			evs[k] = r.watchOne(h, filepath.Join(tmp, fmt.Sprintf("w%d", k)))
+		}(k, h)
+	}
+	wg.Wait()
+	for k := range hs {
+		for _, e := range evs[k] {
+			r.rec.Emit(e)
+		}
+	}
+}
+
+func (r *refRun) watchOne(h *RHist, dir string) []E {
+	out := []E{{"e": "reset", "sc": h.ID}}
+	os.MkdirAll(dir, 0o755)
+	path := filepath.Join(dir, "tacquito.yaml")
+	os.WriteFile(path, []byte(h.Docs[0].Text), 0o644)
+	ctx, cancel := context.WithCancel(context.Background())
+	defer cancel()
+	lg := NewCapLog(nil, false)
+	acc, _ := local.New(lg, local.SetLogSink(r.sink))
+	w := fsnotify.New(ctx, yaml.New(), lg)
+	long, err := loader.NewLocalConfig(ctx, path, w,
+		loader.SetLoggerProvider(lg), loader.SetKeychainProvider(secret.New()), loader.SetConfigProvider(config.New()),
+		loader.SetAuthorizerProvider(stringy.New(lg)), loader.RegisterSecretProviderType(config.PREFIX, prefix.New(lg)),
+		loader.RegisterHandlerType(config.START, handlers.NewStart(lg)), loader.RegisterAuthenticator(config.BCRYPT, bcrypt.New(lg, okSecret{})),
+		loader.RegisterAccounter(config.FILE, acc))
+	good0 := h.Docs[0].Parses && h.Docs[0].MinOK
+	out = append(out, E{"e": "wstart", "ok": err == nil, "good": good0})
+	if err != nil {
+		return out
+	}
+	long.BlockUntilLoaded()
+	lastGood := h.Docs[0].Text
+	freshFor := func(text string) *loader.Loader {
+		ff := newFileLoader("yaml")
+		var fresh config.ServerConfig
+		if ff.Unmarshal([]byte(text)) == nil {
+			fresh = <-ff.Config()
+		}
+		fch := chanCfg{ch: make(chan config.ServerConfig, 1)}
+		fl := r.newLoader(fch)
+		fch.ch <- fresh
+		fl.BlockUntilLoaded()
+		return fl
+	}
+	same := func(a, b *loader.Loader) bool {
+		for _, p := range h.Probes {
+			ok1, k1, u1 := probeLoader(a, p, h.Users)
+			ok2, k2, u2 := probeLoader(b, p, h.Users)
+			if ok1 != ok2 || string(k1) != string(k2) || fmt.Sprint(u1) != fmt.Sprint(u2) {
+				return false
+			}
+		}
+		return true
+	}
+	for i, d := range h.Docs[1:] {
+		if i%2 == 1 {
+			// other files of the directory change too (an editor's swap file, a neighbour)
+			os.WriteFile(filepath.Join(dir, ".tacquito.yaml.swp"), []byte("x"), 0o644)
+			os.WriteFile(filepath.Join(dir, "notes.txt"), []byte("y"), 0o644)
+		}
+		os.WriteFile(path, []byte(d.Text), 0o644)
+		good := d.Parses && d.MinOK
+		if good {
+			lastGood = d.Text
+		}
+		fl := freshFor(lastGood)
+		if good {
+			// the watcher reloads within its debounce period: wait (bounded) until the Loader answers like the fresh one
+			for k := 0; k < 300 && !same(long, fl); k++ {
+				time.Sleep(100 * time.Millisecond)
+			}
+		} else {
+			time.Sleep(2500 * time.Millisecond) // a bad document: past the debounce period nothing must have changed
+		}
+		for _, a := range h.Probes {
+			ok1, k1, u1 := probeLoader(long, a, h.Users)
+			ok2, k2, u2 := probeLoader(fl, a, h.Users)
+			out = append(out, E{"e": "probe", "i": i + 2, "addr": a, "ok": ok1, "key": string(k1), "users": u1, "fok": ok2, "fkey": string(k2), "fusers": u2, "watch": true})
+		}
+	}
+	return out
 }
